@@ -481,6 +481,8 @@ func runCell(wLocal, wRemote *world, in cellIn) (out cellOut) {
 		l1, l2 = 0, 0
 	case "target0":
 		t1, t2 = 0, 0
+	case "nosecret": // the mappings store NO secret (SecretKey ""), as ActivateConnectionCode creates them
+		k1, k2 = "", ""
 	}
 	m1 := mk(l1, t1, k1)
 	m2 := mk(l2, t2, k2)
@@ -681,11 +683,14 @@ func runCell(wLocal, wRemote *world, in cellIn) (out cellOut) {
 	namedMapping := map[string]string{"none": "", "tunnel": "m1", "other": "m2"}[in.Mid]
 	// a stored party id 0 means "nobody" (server-side listener / no target client): no connection is that party, least of all an
 	// unauthenticated one whose client id is also 0
+	if in.Party == "nosecret" && in.Secret != "none" && in.Secret != "wrong" {
+		panic("generator: a mapping without stored secret is driven with secrets none / wrong only")
+	}
 	isListen := ((tunnelMapping == "m1" && in.ID == "listen") || (tunnelMapping == "m2" && authenticated)) && in.Party != "listen0"
 	isTarget := tunnelMapping == "m1" && in.ID == "target" && in.Party != "target0"
 	valid := in.MState == "active" || in.MState == "soon60s" // the state dimension applies to the named mapping, which must be the tunnel's mapping anyway
 	out.Entitled = authenticated && tunnelMapping != "" && namedMapping == tunnelMapping && valid &&
-		((isListen && in.Secret == "none") || ((isListen || isTarget) && in.Secret == "right"))
+		((isListen && in.Secret == "none") || ((isListen || isTarget) && in.Secret == "right" && in.Party != "nosecret"))
 
 	// ---- the property predicate on the real code's outputs ----
 	out.PropOK = true
@@ -831,10 +836,60 @@ func gen() {
 		}
 	}
 	sb.WriteString(strings.Join(rows, ";\n") + "\n].\n\n")
+	// the real credential validator on a mapping that stores NO secret: client x names_mapping x presented (0 none, 2 unrelated non-empty)
+	sb.WriteString("(* rows: (client: 0 none 1 listen 2 target 3 other, names_mapping, presented secret: 0 none 2 unrelated) -> accepted, on an ACTIVE mapping whose stored secret is empty *)\n")
+	sb.WriteString("Definition nosecret_table : list ((N * bool * N) * bool) := [\n")
+	rows = nil
+	for ci, cl := range []int64{0, w.L.id, w.T.id, w.S.id} {
+		for _, names := range []bool{false, true} {
+			for _, si := range []int{0, 2} {
+				n++
+				m, err := w.fx.Cloud.CreatePortMapping(&models.PortMapping{ListenClientID: w.L.id, TargetClientID: w.T.id, SecretKey: "",
+					Protocol: models.ProtocolTCP, TargetHost: "127.0.0.1", TargetPort: 1, Status: models.MappingStatusActive})
+				must(err)
+				req := &packet.TunnelOpenRequest{TunnelID: fmt.Sprintf("g%d", n)}
+				if names {
+					req.MappingID = m.ID
+				}
+				if si == 2 {
+					req.SecretKey = "anything-non-empty"
+				}
+				cc := session.NewControlConnection(fmt.Sprintf("gen-%d", n), nil, nil, "tcp")
+				cc.SetClientID(cl)
+				cc.SetAuthenticated(cl != 0)
+				ok := w.fx.Tunnel.HandleTunnelOpen(cc, req) == nil
+				rows = append(rows, fmt.Sprintf("  ((%d, %s, %d), %s)", ci, b2s(names), si, b2s(ok)))
+			}
+		}
+	}
+	sb.WriteString(strings.Join(rows, ";\n") + "\n].\n\n")
+	// the routing table answers only for the tunnel id that was asked: a record registered under an id of length L is looked up
+	// under (first `cut` bytes of that id + "-x") and under the id itself
+	sb.WriteString("(* rows: (length of the registered id, cut) -> (found under the registered id, found under its first `cut` bytes + \"-x\") *)\n")
+	sb.WriteString("Definition routing_key_table : list ((N * N) * (bool * bool)) := [\n")
+	rows = nil
+	{
+		rt := session.NewTunnelRoutingTable(memory.New(context.Background()), 30*time.Second)
+		for _, l := range []int{20, 63, 64, 65, 100, 300} {
+			for _, cut := range []int{16, 63, 64, 65, 100} {
+				if cut > l {
+					continue
+				}
+				n++
+				id := fmt.Sprintf("gr%d-", n) + strings.Repeat("q", l)
+				id = id[:l]
+				must(rt.RegisterWaitingTunnel(context.Background(), &session.TunnelWaitingState{TunnelID: id, MappingID: "pm", SourceNodeID: "n"}))
+				_, e1 := rt.LookupWaitingTunnel(context.Background(), id)
+				_, e2 := rt.LookupWaitingTunnel(context.Background(), id[:cut]+"-x")
+				rows = append(rows, fmt.Sprintf("  ((%d, %d), (%s, %s))", l, cut, b2s(e1 == nil), b2s(e2 == nil)))
+			}
+		}
+	}
+	sb.WriteString(strings.Join(rows, ";\n") + "\n].\n\n")
 	// does the secret-key path consult IsValid on this tree? (right secret, target client, revoked mapping)
 	sb.WriteString("(* dimensions of the dispatcher table driven through SessionManager.HandlePacket (lib/props/c04.py) *)\n")
 	sb.WriteString("Definition table_dims : list N := [5; 3; 10; 2; 10; 4].\n")
-	sb.WriteString("(* sub-table with the mapping-party dimension (listen id 0 / target id 0) *)\nDefinition party_dims : list N := [2; 5; 3; 4; 1; 3; 3].\n")
+	sb.WriteString("(* sub-table with the mapping-party dimension (listen id 0 / target id 0) *)\nDefinition party_dims : list N := [2; 5; 3; 4; 1; 3; 3].\nDefinition nosecret_dims : list N := [5; 3; 2; 1; 3; 3].\n")
 	sb.WriteString("Close Scope N_scope.\n")
 	fmt.Print(sb.String())
 }
